@@ -42,6 +42,15 @@ def sig_of(e, events=None, k=None):
         return {"clause": "spec", "cause": f[0]}
     if e.get("dup") and e.get("sens_g"):
         return {"clause": "spec", "cause": "duplicate_keys_seen_by_both_evaluators"}
+    # `V as $x | ... try error($x) catch .` answers "undefined variable: $x" (binding lost inside try)
+    try:
+        outs = (e.get("oe") or {}).get("out") or []
+        texts = ["".join(chr(c) for c in o.get("cp", [])) for o in outs if isinstance(o, dict) and o.get("t") == "str"]
+        m = [t for t in texts if t.startswith("undefined variable: $")]
+        if m and ("error(" + m[0][len("undefined variable: "):]) in prog.replace(" ", "") and "try" in prog:
+            return {"clause": "spec", "cause": "variable_unbound_in_error_inside_try"}
+    except Exception:
+        pass
     return {"clause": "spec", "cause": "other", "prog": prog}
 
 
